@@ -1,5 +1,155 @@
-import Bkl
+/-
+  C19 — "Producing output is a pure observation of parser state".
+
+  The history language below is what the driver's `runHist` (Driver.lean) executes: a parser
+  state threaded through `merge` steps, with `documents` / `outputDocuments` steps that only
+  look at it.  In the model `outputDocuments` is a pure function of the merged trees, so the
+  theorems here hold *by construction*; their content is that the Go implementation — where
+  `OutputDocuments` runs on the parser's own heap objects — computes this same pure function,
+  which is what the differential history test checks.  They are therefore kept short.
+-/
+import BklProofs.Lemmas.Parser
 namespace Bkl
-/-- placeholder until the property theorems land -/
-theorem C19_placeholder : validate (.int 1) = .ok () := by simp [validate]; rfl
+
+/-- one step of a parser history -/
+inductive Op where
+  | merge (d : Doc)                   -- Parser.MergeDocument
+  | documents                         -- Parser.Documents (the merged, unevaluated trees)
+  | outputDocuments (env : Vars)      -- Parser.OutputDocuments
+
+/-- what a step lets the caller observe -/
+inductive Obs where
+  | merged (ok : Bool)
+  | docs (ds : List Val)
+  | out (r : R (List Val))
+  | skipped                           -- only produced by `runDead`
+
+/-- a failing merge keeps the state; `documents` and `outputDocuments` never change it -/
+def step (st : PState) : Op → PState × Obs
+  | .merge d =>
+    match mergeDocument st d with
+    | .ok st' => (st', .merged true)
+    | .error _ => (st, .merged false)
+  | .documents => (st, .docs (st.docs.map (·.2)))
+  | .outputDocuments env => (st, .out (outputDocuments (st.docs.map (·.2)) env))
+
+def run : PState → List Op → PState × List Obs
+  | st, [] => (st, [])
+  | st, op :: ops => ((run (step st op).1 ops).1, (step st op).2 :: (run (step st op).1 ops).2)
+
+/-- `runHist`'s convention: after a failed merge every later step is skipped -/
+def runDead : PState → Bool → List Op → PState × List Obs
+  | st, _, [] => (st, [])
+  | st, true, _ :: ops => ((runDead st true ops).1, .skipped :: (runDead st true ops).2)
+  | st, false, op :: ops =>
+    let dead := match (step st op).2 with | .merged false => true | _ => false
+    ((runDead (step st op).1 dead ops).1, (step st op).2 :: (runDead (step st op).1 dead ops).2)
+
+def Op.isMerge : Op → Bool
+  | .merge _ => true
+  | _ => false
+
+/-! two bookkeeping facts about `run` (kept here because `run` is defined in this file) -/
+
+theorem run_append (st : PState) (h₁ h₂ : List Op) :
+    run st (h₁ ++ h₂) =
+      ((run (run st h₁).1 h₂).1, (run st h₁).2 ++ (run (run st h₁).1 h₂).2) := by
+  induction h₁ generalizing st with
+  | nil => rfl
+  | cons op ops ih => simp only [List.cons_append, run, ih]
+
+theorem run_obs_length (st : PState) (h : List Op) : (run st h).2.length = h.length := by
+  induction h generalizing st with
+  | nil => rfl
+  | cons op ops ih => simp only [run, List.length_cons, ih]
+
+/-- Inserting an `outputDocuments` step anywhere in a history changes neither the final state
+    nor any other observation: the observations are those of the shorter history with exactly
+    one extra `out` observation (of the state reached after `h₁`) at position `h₁.length`. -/
+theorem C19_output_pure (st : PState) (h₁ h₂ : List Op) (env : Vars) :
+    (run st (h₁ ++ [.outputDocuments env] ++ h₂)).1 = (run st (h₁ ++ h₂)).1 ∧
+    (run st (h₁ ++ [.outputDocuments env] ++ h₂)).2 =
+      (run st (h₁ ++ h₂)).2.take h₁.length ++
+        [.out (outputDocuments ((run st h₁).1.docs.map (·.2)) env)] ++
+        (run st (h₁ ++ h₂)).2.drop h₁.length := by
+  have hl := run_obs_length st h₁
+  simp only [run_append, run, step, List.append_assoc, List.take_left', List.drop_left', hl,
+    List.nil_append, List.cons_append, and_self]
+
+/-- the same holds under `runHist`'s "dead after a failed merge" convention (live prefix) -/
+theorem C19_output_pure_dead (st : PState) (ops : List Op) (env : Vars) :
+    (runDead st false (.outputDocuments env :: ops)).1 = (runDead st false ops).1 ∧
+    (runDead st false (.outputDocuments env :: ops)).2 =
+      .out (outputDocuments (st.docs.map (·.2)) env) :: (runDead st false ops).2 := by
+  simp only [runDead, step, and_self]
+
+/-- Asking for the output twice gives the same answer twice. -/
+theorem C19_output_repeatable (st : PState) (env : Vars) :
+    (run st [.outputDocuments env, .outputDocuments env]).2 =
+      [.out (outputDocuments (st.docs.map (·.2)) env),
+       .out (outputDocuments (st.docs.map (·.2)) env)] := rfl
+
+/-- The state after a history depends on its `merge` steps only. -/
+theorem C19_state_depends_on_merges_only (st : PState) (h : List Op) :
+    (run st h).1 = (run st (h.filter Op.isMerge)).1 := by
+  induction h generalizing st with
+  | nil => rfl
+  | cons op ops ih =>
+    cases op with
+    | merge d => simp only [List.filter_cons, Op.isMerge, if_true, run, ih]
+    | documents => simp [Op.isMerge, run, step, ih]
+    | outputDocuments env => simp [Op.isMerge, run, step, ih]
+
+/-- After a history of (successful) merges, `documents` shows exactly the merged trees of the
+    state `runMerges` computes — never an evaluated tree: no `outputDocuments` result is stored
+    anywhere (there is no place in `PState` for it). -/
+theorem C19_documents_are_merged_trees {ps : List Doc} : ∀ {st st' : PState},
+    runMerges st ps = .ok st' →
+    run st (ps.map Op.merge ++ [.documents]) =
+      (st', ps.map (fun _ => Obs.merged true) ++ [.docs (st'.docs.map (·.2))]) := by
+  induction ps with
+  | nil =>
+    intro st st' h
+    rw [runMerges_nil] at h
+    cases h; rfl
+  | cons p ps ih =>
+    intro st st' h
+    rw [runMerges_cons] at h
+    cases hm : mergeDocument st p with
+    | error e => rw [hm] at h; cases h
+    | ok s =>
+      rw [hm] at h
+      simp only [List.map_cons, List.cons_append, run, step, hm, ih h]
+
+/-- … also when output was requested in between (`outputDocuments` steps interleaved). -/
+theorem C19_documents_after_outputs {ps : List Doc} {st st' : PState} (h : List Op)
+    (hf : h.filter Op.isMerge = ps.map Op.merge) (hr : runMerges st ps = .ok st') :
+    (run st (h ++ [.documents])).2.getLast? = some (.docs (st'.docs.map (·.2))) := by
+  have h1 : (run st h).1 = st' := by
+    rw [C19_state_depends_on_merges_only, hf]
+    have := congrArg (·.1) (C19_documents_are_merged_trees hr)
+    rw [run_append] at this
+    exact this
+  rw [run_append]
+  simp only [run, step, h1, List.getLast?_append, List.getLast?_singleton, Option.some_or]
+
+/-- A merge after an output request behaves as if the output had never been requested. -/
+theorem C19_merge_after_output (st : PState) (env : Vars) (d : Doc) :
+    (run st [.outputDocuments env, .merge d]).1 = (run st [.merge d]).1 ∧
+    (run st [.outputDocuments env, .merge d]).2 =
+      .out (outputDocuments (st.docs.map (·.2)) env) :: (run st [.merge d]).2 := ⟨rfl, rfl⟩
+
+/-! non-vacuity of the two theorems with hypotheses -/
+
+example : runMerges PState.empty [{ id := "a", parents := [], data := .int 1 }] =
+    .ok { docs := [("a", .int 1)], known := [("a", [])] } := by
+  rw [runMerges_cons]
+  have : mergeDocument PState.empty { id := "a", parents := [], data := .int 1 } =
+      .ok { docs := [("a", .int 1)], known := [("a", [])] } := rfl
+  rw [this]; rfl
+
+example :
+    let h : List Op := [.merge { id := "a", parents := [], data := .int 1 }, .outputDocuments []]
+    h.filter Op.isMerge = [Doc.mk "a" [] (.int 1)].map Op.merge := rfl
+
 end Bkl
